@@ -14,15 +14,16 @@ TECHNIQUE = "machine-checked proof in Coq + model/code correspondence check"
 DESIGN_REF = "DESIGN.md §4 C13, Appendix C.2"
 RULE = ("sess: generated POP3 dialogues (0-8 messages, hostile message sources incl. 70 KB lines, valid/malformed/out-of-range/"
         "overflowing/signed arguments, mixed case and the two non-ASCII runes that upper-case to ASCII, double spaces, LF/CRLF/CRCRLF "
-        "line ends, split and pipelined chunks, any order of USER/PASS/APOP, CAPA, QUIT or EOF or unterminated last line, write failure) "
-        "interleaved with deliveries/removals/purges by others, alternating mem and file store; plus an enumeration of all pairs of "
-        "transaction commands on a 2-message mailbox. distinct = distinct input line; non-trivial = the session logs in and issues "
-        "at least one further command line.")
+        "line ends, split and pipelined chunks, any order of USER/PASS/APOP, CAPA, QUIT or EOF or unterminated last line, idle timeout, "
+        "read error, write failure, reconnects on the same server) interleaved with deliveries/removals/purges by others and mailbox-cap "
+        "evictions, alternating mem and file store; plus an enumeration of all pairs of transaction commands on a 2-message mailbox and a "
+        "regression corpus. distinct = distinct input line; non-trivial = the session logs in and issues at least one further command line.")
 TRUSTED = ["command words are compared after Go's strings.ToUpper: modelled for ASCII plus U+0131/U+017F (the only runes whose upper case is ASCII)",
            "store behaviour as modelled in Model/Pop3.v (mailbox = list in delivery order, ids unique per mailbox, file-store Source() fails once the message is removed, mem-store Source() never fails)"]
 ASSUMPTIONS = ["the harness's scripted net.Conn hands the server one line per Read and never blocks writes; deadlines are not exercised",
                "TLS disabled (config.POP3.TLSEnabled=false, ForceTLS=false)"]
-NOT_PROVED = []
+NOT_PROVED = ["refinement of the Go stores by the store abstraction of Model/Pop3.v (sampled by the correspondence run; C07 owns the store models)",
+              "behaviour under true concurrency inside one command (a store change while RETR is streaming): not modelled"]
 
 
 def _events(ins):
@@ -74,3 +75,34 @@ def shrink_candidates(inp):
 EXEC_TIMEOUT = {"quick": 300, "thorough": 5400}
 MODEL_TIMEOUT = {"quick": 300, "thorough": 5400}
 GEN_TIMEOUT = 120
+
+
+def post(run):
+    """Supporting search (not part of the proof): the session under real concurrency with other
+    store clients, driver built with -race; the property is checked on the replies by the driver."""
+    import os
+    from vcheck import core
+    if run.violations:
+        return
+    racebin = run.drive + "_race"
+    rc, o, dt = core.go_build("./cmd/c13", racebin, race=True)
+    if rc != 0:
+        run.notes.append("race build of the C13 driver failed; stress stream skipped: " + o[-300:])
+        return
+    n = 6 if run.tier == "quick" else 150
+    inp = os.path.join(run.dir, "stress.in.txt")
+    with open(inp, "w") as f:
+        for i in range(n):
+            s = run.seed * 1000 + i
+            f.write("stress mem %d 6 300\n" % s)
+            f.write("stress file %d 6 300\n" % s)
+            f.write("stress mem:3 %d 5 200\n" % s)
+            f.write("stress file:4 %d 8 200\n" % s)
+    old = run.drive
+    run.drive = racebin
+    try:
+        core.evaluate(run, inp, label="stress")
+    finally:
+        run.drive = old
+    run.cov.setdefault("extra", {})["stress_note"] = ("stream 'stress': real interleavings with 3 concurrent store clients, "
+                                                       "-race build; a data race makes the driver exit non-zero (reported as a violation)")
